@@ -79,21 +79,52 @@ pub fn esc(b: &[u8]) -> String {
     s
 }
 
-pub struct Out {
-    w: std::io::BufWriter<std::io::Stdout>,
+// Observation lines are collected in a process-wide buffer so that a watchdog can still print them when the
+// thread that runs the case is stuck inside the code under test (a deadlock answers nothing and panics nothing).
+lazy_static::lazy_static! {
+    static ref OUT_BUF: std::sync::Mutex<Vec<u8>> = std::sync::Mutex::new(Vec::new());
+    static ref LAST_LINE: std::sync::Mutex<std::time::Instant> = std::sync::Mutex::new(std::time::Instant::now());
 }
+
+pub struct Out {}
 
 impl Out {
     pub fn new() -> Out {
-        Out { w: std::io::BufWriter::new(std::io::stdout()) }
+        *LAST_LINE.lock().unwrap() = std::time::Instant::now();
+        Out {}
     }
     pub fn line(&mut self, s: &str) {
-        self.w.write_all(s.as_bytes()).unwrap();
-        self.w.write_all(b"\n").unwrap();
+        let mut b = OUT_BUF.lock().unwrap();
+        b.extend_from_slice(s.as_bytes());
+        b.push(b'\n');
+        if b.len() > (1 << 20) {
+            std::io::stdout().write_all(&b).unwrap();
+            b.clear();
+        }
+        *LAST_LINE.lock().unwrap() = std::time::Instant::now();
     }
     pub fn flush(&mut self) {
-        self.w.flush().unwrap();
+        let mut b = OUT_BUF.lock().unwrap();
+        std::io::stdout().write_all(&b).unwrap();
+        b.clear();
+        std::io::stdout().flush().unwrap();
     }
+}
+
+/// a command that has not produced its observation line after `secs` seconds never will: print what there is, mark the
+/// case as hung and end the process (the remaining cases of the file are not run)
+pub fn start_watchdog(secs: u64) {
+    std::thread::spawn(move || loop {
+        std::thread::sleep(std::time::Duration::from_millis(500));
+        let idle = LAST_LINE.lock().unwrap().elapsed().as_secs();
+        if idle >= secs {
+            let mut b = OUT_BUF.lock().unwrap();
+            b.extend_from_slice(b"HANG | - | repl=[] sup=[]\nD POISONED\nE\n");
+            let _ = std::io::stdout().write_all(&b);
+            let _ = std::io::stdout().flush();
+            std::process::exit(3);
+        }
+    });
 }
 
 pub fn fresh_dir(workdir: &str, name: &str) -> String {
